@@ -141,10 +141,23 @@ def run(ctx):
     shape = r.choice(['sphere', 'box', 'capsule'])
     size, dens, gap, v = r.uniform(0.05, 0.3), r.uniform(200, 3000), r.uniform(0.0005, 0.003), r.uniform(0.5, 3.0)
     xa, _ = scene(shape, size, dens, gap, dt=0.002)
+    if r.random() < 0.5:      # a detection margin wider than the gap: the contact is reported early but is not yet active
+      xa = xa.replace('<geom name="g" ', f'<geom name="g" margin="{r.choice([0.005, 0.01, 0.05])!r}" ')
     xb = xa.replace('<geom name="ground" type="plane" size="0 0 1"/>', '<geom name="ground" type="plane" size="0 0 1" contype="0" conaffinity="0"/>')
     for pipe in ('generalized', 'spring'):
       twin.append({'what': 'separated', 'xml_a': xa, 'xml_b': xb, 'pipe': pipe, 'q': None, 'qd': [0, 0, -v, 0, 0, 0], 'steps': 1,
                    'acts': None, 'before_only': True})
+  # floating primitives spinning fast relative to the step (|w| dt up to 0.8): rotations stay unit quaternions
+  for _ in range(2 if q else 20):
+    shape = r.choice(['sphere', 'box', 'capsule'])
+    size, dens = r.uniform(0.05, 0.3), r.uniform(200, 3000)
+    xa, _ = scene(shape, size, dens, 2.0, dt=0.002)
+    xb = xa.replace('<geom name="ground" type="plane" size="0 0 1"/>', '<geom name="ground" type="plane" size="0 0 1" contype="0" conaffinity="0"/>')
+    w = r.choice([30.0, 100.0, 400.0])
+    u = np.array([r.gauss(0, 1) for _ in range(3)])
+    u = (u / np.linalg.norm(u) * w).tolist()
+    for pipe in PIPES:
+      twin.append({'what': 'separated', 'xml_a': xa, 'xml_b': xb, 'pipe': pipe, 'q': None, 'qd': [0, 0, 0] + u, 'steps': 5, 'acts': None})
   traces, info = [], []
   for case, out in par.run('harness.drivers.c06', 'twin_case', twin):
     if 'brax_error' in out:
@@ -177,8 +190,14 @@ def run(ctx):
     for pipe in PIPES:
       drops.append({'what': 'drop', 'xml': xml, 'pipe': pipe, 'q': None, 'qd': None, 'steps': 500 if q else 1500, 'acts': None,
                     'rest': rest, 'shape': shape})
-  for _ in range(3 if q else 40):
+  for i in range(3 if q else 40):
     size, e, h = r.uniform(0.05, 0.3), r.uniform(0.0, 0.9), r.uniform(0.2, 1.0)
+    if i % 2 == 0:
+      # grazing impact: the last contact-free step ends a few micrometres above the plane (free fall under semi-implicit
+      # Euler: gap_k = h - g dt^2 k (k + 1) / 2)
+      k = r.randint(200, 440)
+      h = 9.81 * 0.001 ** 2 * k * (k + 1) / 2 + r.choice([2e-6, 1e-5, 1.8e-5])
+      e = r.uniform(0.3, 0.9)
     xml, rest = scene('sphere', size, 1000.0, h, elasticity=e, dt=0.001)
     T = int((math.sqrt(2 * h / 9.81) * 2.2 + 0.1) / 0.001)
     for pipe in ('spring', 'positional'):
